@@ -98,13 +98,14 @@ structure PRec where
   attached : List Nat := []
   deriving Inhabited
 
-/-- Kernel state. `cur`/`queue` are the two buffers of Runtime.leave(): `cur` = the rest of the
-batch being iterated (`jobs`), `queue` = Runtime.jobQueue.  `enq`, `ran`, `enqEver` are ghost logs. -/
+/-- Kernel state.  `jobs` = the promise jobs not yet started, oldest first: the not yet started rest of the batch
+that Runtime.leave() is iterating (its local `jobs`), followed by Runtime.jobQueue.  WHICH prefix of `jobs` is the
+current batch is local state of the drain loop (Interp.drainS), exactly as `jobs` is a local variable of leave() in
+Go: nothing outside the loop can see the split.  `enq`, `ran`, `enqEver` are ghost logs. -/
 structure K where
   proms : List PRec := []
   latches : List (Nat × Bool) := []       -- (owner promise, alreadyResolved)
-  cur : List Job := []
-  queue : List Job := []
+  jobs : List Job := []
   tracker : List (Nat × TrackOp) := []
   nextRid : Nat := 0
   nextSid : Nat := 0
@@ -121,7 +122,7 @@ def K.setP (k : K) (p : Nat) (r : PRec) : K := { k with proms := k.proms.set p r
 /-- enqueuePromiseJob (builtin_promise.go:189): append to Runtime.jobQueue. -/
 def enqueue (k : K) (mk : Nat → Job) : K :=
   let j := mk k.nextSid
-  { k with queue := k.queue ++ [j], enq := k.enq ++ [j], enqEver := k.enqEver ++ [j],
+  { k with jobs := k.jobs ++ [j], enq := k.enq ++ [j], enqEver := k.enqEver ++ [j],
            nextSid := k.nextSid + 1 }
 
 /-- triggerPromiseReactions (builtin_promise.go:193). -/
@@ -220,33 +221,26 @@ Runtime.NewPromise (:629-630): a new promise (id = old `proms.length`) with its 
 `latches.length`). -/
 def newCap (k : K) : K := createResolvingFunctions (newPromise k) k.proms.length
 
-/-- `jobs, r.jobQueue = r.jobQueue, jobs[:0]` (runtime.go:2874) — only when the batch is exhausted. -/
-def swap (k : K) : K :=
-  match k.cur with
-  | [] => { k with cur := k.queue, queue := [] }
-  | _ :: _ => k
-
 /-- Start the next job of the batch (`for _, job := range jobs { job() }`, runtime.go:2875).  A thenable
 job begins with createResolvingFunctions (builtin_promise.go:177). -/
 def popJob (k : K) : K :=
-  match k.cur with
+  match k.jobs with
   | [] => k
   | j :: rest =>
-    let k := { k with cur := rest, ran := k.ran ++ [j] }
+    let k := { k with jobs := rest, ran := k.ran ++ [j] }
     match j with
     | .reaction _ _ _ _ => k
     | .thenable _ p _ _ => createResolvingFunctions k p
 
 /-- leaveAbrupt (runtime.go:2884): the queue is discarded.  (The batch being iterated is
 abandoned with the unwinding Go stack.) -/
-def leaveAbrupt (k : K) : K := { k with cur := [], queue := [], enq := k.ran }
+def leaveAbrupt (k : K) : K := { k with jobs := [], enq := k.ran }
 
 inductive KOp
   | newCap
   | callResolve (l : Nat) (v : Val) (look : ThenLook)
   | callReject (l : Nat) (v : Val)
   | addReactions (p : Nat) (cap : Option Cap) (onF onR : Option Fn)
-  | swap
   | popJob
   | leaveAbrupt
   deriving Inhabited
@@ -256,7 +250,6 @@ def applyOp : KOp → K → K
   | .callResolve l v look, k => callResolve k l v look
   | .callReject l v, k => callReject k l v
   | .addReactions p cap f g, k => addReactions k p cap f g
-  | .swap, k => swap k
   | .popJob, k => popJob k
   | .leaveAbrupt, k => leaveAbrupt k
 
@@ -270,6 +263,43 @@ abbrev RK := { k : K // Reach k }
 
 def RK.init : RK := ⟨{}, .init⟩
 def RK.apply (rk : RK) (op : KOp) : RK := ⟨applyOp op rk.val, .step op rk.property⟩
+
+/-! ## Ops available to code that runs INSIDE an outermost call or a job
+
+User code, built-ins and reaction/thenable job bodies can create capabilities, call resolving functions and
+attach reactions; only the scheduler (Runtime.leave / leaveAbrupt) starts jobs or discards the queue. -/
+
+inductive BOp
+  | newCap
+  | callResolve (l : Nat) (v : Val) (look : ThenLook)
+  | callReject (l : Nat) (v : Val)
+  | addReactions (p : Nat) (cap : Option Cap) (onF onR : Option Fn)
+  deriving Inhabited
+
+def BOp.toK : BOp → KOp
+  | .newCap => .newCap
+  | .callResolve l v look => .callResolve l v look
+  | .callReject l v => .callReject l v
+  | .addReactions p cap f g => .addReactions p cap f g
+
+/-- `k` is reachable from `k0` by body ops only. -/
+inductive BodyReach (k0 : K) : K → Prop
+  | refl : BodyReach k0 k0
+  | step (o : BOp) {k : K} : BodyReach k0 k → BodyReach k0 (applyOp o.toK k)
+
+/-- Kernel state of code running since the scheduler last acted (at kernel state `k0`). -/
+abbrev BK (k0 : K) := { k : K // Reach k ∧ BodyReach k0 k }
+
+def BK.apply {k0 : K} (b : BK k0) (o : BOp) : BK k0 :=
+  ⟨applyOp o.toK b.val, .step o.toK b.property.1, .step o b.property.2⟩
+
+/-- The scheduler acts: the result is the new base. -/
+def BK.sched {k0 : K} (b : BK k0) (o : KOp) : BK (applyOp o b.val) :=
+  ⟨applyOp o b.val, .step o b.property.1, .refl⟩
+
+def BK.rebase {k0 : K} (b : BK k0) : BK b.val := ⟨b.val, b.property.1, .refl⟩
+
+def BK.init : BK {} := ⟨{}, .init, .refl⟩
 
 /-! ## Generic model of the drain loop (any job behaviour) -/
 namespace JobQueue
